@@ -42,6 +42,15 @@ CramC05  == {"pass", "pass3", "failout", "failcode", "failcodeexp", "failboth", 
 ScenC05(u) == {Plain(<<Md(MkTests(1, names))>>) : names \in SeqsOf(C05Kinds, 1, 3)}
            \cup {Plain(<<Cram(MkCram(1, names))>>) : names \in SeqsOf(CramC05, 1, 2)}
 
+\* the stream comes from the document defaults (defaults.output_stream) for one test case and is written inline - also as
+\* plain `stdout` - for its neighbour
+FromDoc(tc) == [tc EXCEPT !.sinline = FALSE]
+C05DocStream(u) ==
+    {Plain(<<[Md(<<FromDoc([Kind(n1, "d1t1") EXCEPT !.stream = sd]), Kind(n2, "d1t2")>>) EXCEPT !.sdef = sd]>>) :
+        sd \in {"stderr", "combined"}, n1 \in {"err_pass", "err_unexp", "quiet", "pass"}, n2 \in {"pass", "err_pass", "failout"}}
+    \cup {Plain(<<[Md(<<Kind(n2, "d1t1"), FromDoc([Kind(n1, "d1t2") EXCEPT !.stream = sd])>>) EXCEPT !.sdef = sd]>>) :
+        sd \in {"stderr", "combined"}, n1 \in {"err_pass", "err_unexp"}, n2 \in {"pass", "comb_pass"}}
+
 \* ---- C14: one slow test case (3 ticks) among three; limits 1 or 6; document limit from front-matter and/or CLI
 SlowTc(id, t, stream) == Tc(id, "exit", 0, 3, None, "stdout", stream, "match", t, FALSE, None)
 C14Tests(p, t) == [x \in 1..3 |-> IF x = p THEN SlowTc(Ids[1][x], t, "stdout") ELSE Kind("pass", Ids[1][x])]
@@ -167,7 +176,7 @@ DetachedAndCut(cuts) ==
     {Run(<<Doc("md", None, None, "no", tests)>>, None, <<>>, <<>>, "cli", FALSE) :
         tests \in UNION {{<<Kind("det", "d1t1"), CutTc(x, "d1t2"), Kind("pass", "d1t3")>>,
                           <<Kind(n1, "d1t1"), Kind("det", "d1t2"), CutTc(x, "d1t3")>>} : x \in cuts, n1 \in {"pass", "failout"}}}
-Scenarios == CASE Focus = "C05" -> ScenC05(0) \cup SharedAndTimeout(0) \cup DetachedAndCut({"slow", "sig_noexp", "failcode"}) \cup SharedPlain(0)
+Scenarios == CASE Focus = "C05" -> C05DocStream(0) \cup ScenC05(0) \cup SharedAndTimeout(0) \cup DetachedAndCut({"slow", "sig_noexp", "failcode"}) \cup SharedPlain(0)
                [] Focus = "C14" -> ScenC14(0) \cup DetachedAndCut({"slow"}) \cup LimitAndShared(0) \cup NoTerm(0) [] Focus = "C15" -> ScenC15(0) \cup DetachedAndCut({"skip80", "slow"}) \cup C15Compat(0) \cup C15Signal(0)
                [] Focus = "C20" -> ScenC20(0) \cup SharedAndTimeout(0) \cup DetachedAndCut({"slow", "sig_noexp", "skip80", "failout"}) \cup ScriptExit(0)
 
